@@ -118,7 +118,7 @@ def exec_sequence(bdir, prop, tier, seed, start, step, count, timeout=180, flavo
     cmd = [os.path.join(bdir, "ecsim"), "batch", prop, tier, str(seed), str(start), str(step), str(count), "600", "0"]
     try:
         p = subprocess.run(cmd, env=env, stdout=subprocess.PIPE, stderr=subprocess.PIPE, timeout=timeout,
-                           preexec_fn=_stack_limiter(768 if (start & 3) == 2 and step % 4 == 0 else None))
+                           preexec_fn=_stack_limiter(768 if ((start & 3) == 2 and step % 4 == 0) or prop == "C05" else None))
     except subprocess.TimeoutExpired:
         return ["%s/?/hang" % prop], "timeout"
     out, err = p.stdout.decode("latin1"), p.stderr.decode("latin1")
@@ -206,7 +206,7 @@ class Batch:
             cmd = [os.path.join(self.bdir, "ecsim"), "batch", self.prop, self.tier, str(self.seed), str(start), str(W),
                    str(remaining), "%.1f" % left, str(self.nsamples if w < 3 and start == w else 0)]
             p = subprocess.Popen(cmd, env=env, stdout=subprocess.PIPE, stderr=subprocess.PIPE,
-                                 preexec_fn=_stack_limiter(768 if (start & 3) == 2 and W % 4 == 0 else None))
+                                 preexec_fn=_stack_limiter(768 if ((start & 3) == 2 and W % 4 == 0) or self.prop == "C05" else None))
             errbuf = []
             et = threading.Thread(target=lambda: errbuf.append(p.stderr.read()), daemon=True)
             et.start()
